@@ -140,6 +140,8 @@ def run(ctx) -> int:
     for cd in docs.corner_docs():
         for ci in (2, 4):
             cases.append((configs.STANDARD[ci], "render", cd, None))
+    for cd in docs.code_off_docs():
+        cases.append((dict(docs.CODE_OFF), "render", cd, None))
     n_corr, disagreements, kn, kbad, lines = pipecheck.correspond(cases, "c01")
 
     # the property on the implementation
